@@ -7,12 +7,17 @@
       rmap0:[[name,path]]                      ProfileNode._repo_map before the first call of the session
       obs:{err, secs:[{grp,name,cls,kv:[{k,v:[str]}]}], order:[names], features:[str],
            rmap:[[name,path]], warn:[[kind,name]]}}
+   or one direct PortageConfig.load_make_conf(dict(env0), <make.conf of the tree>, ...) call:
+     {tid, i, ev:"mkconf", env0:{VAR:[words]}, mc, inc, flags:{src,required,recurse,incr}, obs:{err, env:[{k,v}]}}
    The expected outcome is recomputed with PortageConf!Translate; all clauses are evaluated
    (nothing stops at the first failure); the repo map is followed from call to call, re-synchronising
    on the observed one.
    Clauses: OutsideDomain (generator error, never a verdict on the code), Error_not_raised,
    Error_class, Unexpected_error, Failed_repo_map_changed, Missing_<grp>, Unexpected_<grp>,
-   Sec_<grp>_class, Sec_<grp>_<key>, Order, Features, RepoMap, Warnings, OneDefault, StackClosed. *)
+   Sec_<grp>_class, Sec_<grp>_<key>, Order, Features, RepoMap, Warnings, OneDefault, StackClosed;
+   for mkconf: MakeConf_error_not_raised, MakeConf_error_class, MakeConf_unexpected_error,
+   MakeConf_vars (variables after a successful call), MakeConf_failed_vars (after a failed call
+   the dictionary holds what the files before the failing one assigned).                           *)
 EXTENDS PortageConf, TraceLib
 VARIABLES l, st
 
@@ -68,13 +73,28 @@ Judge(cur, e) ==
             \cup (IF OneDefault(os, o.order, exp.main) THEN {} ELSE {"OneDefault"})
             \cup (IF StackClosed(os, o.order) THEN {} ELSE {"StackClosed"})
 
+PreMk(e) == /\ e.mc.kind \in {"absent", "file", "dir"} /\ (e.mc.kind = "file" => Len(e.mc.frags) = 1)
+            /\ DistinctOrds(e.mc.frags)
+            /\ \A n \in DOMAIN e.inc : \A i \in DOMAIN e.inc[n] : e.inc[n][i].op # "source"
+JudgeMk(e) ==
+  IF ~PreMk(e) THEN {"OutsideDomain"}
+  ELSE LET exp == LoadMakeConfV(e.env0, e.mc, e.inc, e.flags.src, e.flags.required, e.flags.recurse, e.flags.incr)
+           got == {<<e.obs.env[j].k, e.obs.env[j].v>> : j \in DOMAIN e.obs.env}
+           want == {<<k, exp.env[k]>> : k \in DOMAIN exp.env}
+       IN IF exp.err # ""
+          THEN (IF e.obs.err = "" THEN {"MakeConf_error_not_raised"} ELSE IF e.obs.err # exp.err THEN {"MakeConf_error_class"} ELSE {})
+               \cup (IF got = want THEN {} ELSE {"MakeConf_failed_vars"})
+          ELSE IF e.obs.err # "" THEN {"MakeConf_unexpected_error"}
+          ELSE IF got = want THEN {} ELSE {"MakeConf_vars"}
+
 TraceInit == l = 1 /\ st = {}
 TraceNext == /\ l < Len(Tr)
              /\ l' = l + 1
-             /\ LET e == Tr[l']
-                    cur == IF e.i = 1 THEN Pairs(e.rmap0) ELSE st
-                IN /\ Report(e.tid, e.i, Judge(cur, e))
-                   /\ st' = Pairs(e.obs.rmap)
+             /\ LET e == Tr[l'] IN
+                IF e.ev = "mkconf" THEN Report(e.tid, e.i, JudgeMk(e)) /\ st' = st
+                ELSE LET cur == IF e.i = 1 THEN Pairs(e.rmap0) ELSE st
+                     IN /\ Report(e.tid, e.i, Judge(cur, e))
+                        /\ st' = Pairs(e.obs.rmap)
              /\ EndMark(l')
 TraceSpec == TraceInit /\ [][TraceNext]_<<l, st>>
 =========================================================================
